@@ -171,9 +171,10 @@ namespace c12
     }
     c.event();
     // M4 halos
+    std::vector<std::vector<const PartSnap*>> halos(P);
     for(std::size_t r = 0; r < P; ++r)
     {
-      std::vector<const PartSnap*> halo(P, nullptr);
+      std::vector<const PartSnap*>& halo = halos[r]; halo.assign(P, nullptr);
       for(const PartSnap& h : L.patch[r].parts)
       {
         const long s = std::strtol(h.name.c_str(), nullptr, 10);
@@ -183,11 +184,17 @@ namespace c12
       for(std::size_t s = 0; s < P; ++s) if(listed[r][s] && (halo[s] == nullptr || !halo[s]->present))
         rep.bad("extract_patch", "halo-missing", J().kv("rank", (unsigned long)r).kv("neighbour", (unsigned long)s));
     }
+    // shared[(r,s)][d] = base d-entities contained in patch r and in patch s (ascending), r < s
+    std::unordered_map<std::uint64_t, std::array<std::vector<Idx>, 4>> shared;
+    for(int d = 0; d <= dim; ++d) for(Idx e = 0; e < L.base.n[d]; ++e)
+    {
+      const auto& rs = ranks_of[std::size_t(d)][e];
+      for(std::size_t i = 0; i < rs.size(); ++i) for(std::size_t j = 0; j < rs.size(); ++j) if(rs[i] < rs[j])
+        shared[(std::uint64_t(rs[i]) << 32) | std::uint64_t(rs[j])][std::size_t(d)].push_back(e);
+    }
     for(std::size_t r = 0; r < P; ++r) for(std::size_t s = r + 1; s < P; ++s) if(listed[r][s] && listed[s][r])
     {
-      const PartSnap* hr = nullptr; const PartSnap* hs = nullptr;
-      for(const PartSnap& h : L.patch[r].parts) if(h.name == std::to_string(s)) hr = &h;
-      for(const PartSnap& h : L.patch[s].parts) if(h.name == std::to_string(r)) hs = &h;
+      const PartSnap* hr = halos[r][s]; const PartSnap* hs = halos[s][r];
       if(!hr || !hs || !hr->present || !hs->present) continue;
       std::string why;
       if(!c10::part_ranges_ok(t, L.patch[r], *hr, why)) { rep.bad("extract_patch", "halo-range", J().kv("rank", (unsigned long)r).kv("neighbour", (unsigned long)s).kv("why", why)); continue; }
@@ -204,12 +211,9 @@ namespace c12
           continue;
         }
         // the common sequence lists exactly the base entities contained in both patches, each once
-        std::vector<Idx> want;
-        for(Idx e = 0; e < L.base.n[d]; ++e)
-        {
-          const auto& rs = ranks_of[std::size_t(d)][e];
-          if(std::find(rs.begin(), rs.end(), int(r)) != rs.end() && std::find(rs.begin(), rs.end(), int(s)) != rs.end()) want.push_back(e);
-        }
+        static const std::vector<Idx> none;
+        auto itw = shared.find((std::uint64_t(r) << 32) | std::uint64_t(s));
+        const std::vector<Idx>& want = itw == shared.end() ? none : itw->second[std::size_t(d)];
         std::sort(a.begin(), a.end());
         if(a != want)
           rep.bad("extract_patch", "halo-is-not-the-shared-set", J().kv("rank", (unsigned long)r).kv("neighbour", (unsigned long)s).kv("d", d)
